@@ -22,7 +22,7 @@ ASSUMPTIONS = [
     "collections.deque append/appendleft/popleft have their documented end-of-queue semantics",
     "StreamWriter.write buffers bytes in call order",
 ]
-FLOORS = {"C01.R1": 7, "C01.R2": 5, "C01.R3": 4, "C01.R4": 4, "C01.R5": 2, "C01.R6": 2}
+FLOORS = {"C01.R1": 7, "C01.R2": 5, "C01.R3": 4, "C01.R4": 4, "C01.R5": 2, "C01.R6": 2, "C01.R7": 1}
 
 QUEUE_READ_OK = {"len", "bool", "reversed", "list", "tuple", "iter", "enumerate"}
 MUTATORS = {"append", "appendleft", "pop", "popleft", "insert", "extend", "extendleft", "clear", "rotate", "remove", "reverse", "sort", "__setitem__", "__delitem__"}
@@ -35,6 +35,11 @@ def run(ctx):
     r4(ctx)
     r5(ctx)
     r6(ctx)
+    from . import c07
+    from .common import reuse
+
+    reuse(ctx, "C01.R7", [c07.r9], "while is_connected is True a writer is stored whenever another task can run, so the drain never pops a message for which _write finds no stream (C07.R9)",
+          keep=lambda o: o.construct.startswith("coherence:connected-implies-writer") or o.construct.startswith("coherence:__init__"))
 
 
 # ------------------------------------------------------------------------------------------ R1
